@@ -69,11 +69,8 @@ func checkInterchange(c boxprop.Case) *harness.Fail {
 				return harness.Failf("C03|decode|same input decodes differently on repetition", "%v / %v", e1, e2)
 			}
 			w, errW := boxprop.EncodeW(d1, boxTree, opt)
-			size := int(d2.Size())
-			if !boxTree && d2.File != nil {
-				size = len(w) + 4096 // File.Size() describes the box tree; the segment-mode size is judged by C02
-			}
-			s, errS := boxprop.EncodeSW(d2, boxTree, opt, size)
+			// the buffer has exactly Size() bytes, taken after the encode mode is set (File.Size follows the mode)
+			s, errS := boxprop.EncodeSW(d2, boxTree, opt, -1)
 			mode := fmt.Sprintf("boxtree=%v optimize=%v", boxTree, opt)
 			if (errW == nil) != (errS == nil) {
 				return harness.Failf("C03|encoders|one encoder fails and the other succeeds", "%s: Encode: %v, EncodeSW: %v", mode, errW, errS)
